@@ -41,6 +41,8 @@ def valid(case):
         o = case["opts"]
         if not isinstance(o, dict) or o.get("fw") not in pl.FRAMEWORKS:
             return False
+        if not opts_valid(o):
+            return False
         from ..findings import all_keys
         for x in s:
             ks = list(all_keys(x))
@@ -53,6 +55,43 @@ def valid(case):
         return _floats_ok(s)
     except Exception:  # noqa: BLE001
         return False
+
+
+def opts_valid(o):
+    m = o.get("merge")
+    if m is not None:
+        if not (isinstance(m, list) and m):
+            return False
+        for p in m:
+            if not (isinstance(p, list) and p and p[0] in ("exact", "percent", "number")):
+                return False
+            if p[0] == "exact" and len(p) != 1:
+                return False
+            if p[0] == "percent" and not (len(p) == 2 and isinstance(p[1], (int, float)) and not isinstance(p[1], bool) and 0 < p[1] <= 100):
+                return False
+            if p[0] == "number" and not (len(p) == 2 and isinstance(p[1], int) and not isinstance(p[1], bool) and p[1] >= 1):
+                return False
+    sr = o.get("sreg")
+    if sr is not None and not (isinstance(sr, list) and all(x in pl.PSEUDO for x in sr) and len(set(sr)) == len(sr)):
+        return False
+    for k in ("dkr", "dkf"):
+        v = o.get(k)
+        if v is not None and not (isinstance(v, list) and all(isinstance(x, str) for x in v)):
+            return False
+    if "dkr" in o:
+        import re
+        for x in o["dkr"] or []:
+            try:
+                re.compile(x)
+            except re.error:
+                return False
+    ml = o.get("max_literals")
+    if ml is not None and not (isinstance(ml, int) and not isinstance(ml, bool) and 0 <= ml <= 100):
+        return False
+    for k in ("nested", "pic", "meta", "unicode"):
+        if k in o and not isinstance(o[k], bool):
+            return False
+    return True
 
 
 def _objects(v):
